@@ -5,7 +5,9 @@ between independently written models: RpgpModel/<Layer>.lean, RpgpProofs/<Layer>
 import re, sys, os
 layer, prop = sys.argv[1], sys.argv[2]
 L = '/verif/lean'
-for f in (f'{L}/RpgpModel/{layer}.lean', f'{L}/RpgpProofs/{layer}.lean'):
+import glob
+LAYER_FILES = [f'{L}/RpgpModel/{layer}.lean'] + sorted(glob.glob(f'{L}/RpgpProofs/{layer}*.lean'))
+for f in LAYER_FILES:
     if not os.path.exists(f):
         continue
     s = open(f).read()
@@ -18,11 +20,11 @@ for f in (f'{L}/RpgpProps/{prop}.lean', f'{L}/RpgpModel/Ops/{prop}.lean'):
         s = re.sub(r'(?m)^open Rpgp$', f'open Rpgp Rpgp.{layer}', s, count=1)
     open(f, 'w').write(s)
 model = ''
-for f in (f'{L}/RpgpModel/{layer}.lean', f'{L}/RpgpProofs/{layer}.lean'):
+for f in LAYER_FILES:
     if os.path.exists(f):
         model += open(f).read()
 defined = set(re.findall(r"(?m)^(?:@\[[^\]]*\]\s*)?(?:theorem|def|lemma|structure|inductive|abbrev|instance)\s+([A-Za-z_][\w']*)", model))
-for f in (f'{L}/RpgpProps/{prop}.lean', f'{L}/RpgpModel/Ops/{prop}.lean', f'{L}/RpgpProofs/{layer}.lean'):
+for f in [f'{L}/RpgpProps/{prop}.lean', f'{L}/RpgpModel/Ops/{prop}.lean'] + LAYER_FILES[1:]:
     if not os.path.exists(f):
         continue
     s = open(f).read()
